@@ -46,6 +46,16 @@ def strip_comments(text):
     return re.sub(r"--.*", "", text)
 
 
+def _sources_digest():
+    h = hashlib.sha1()
+    for p in lean_sources():
+        if os.path.basename(p) == "Audit.lean":
+            continue
+        h.update(p.encode())
+        h.update(open(p, "rb").read())
+    return h.hexdigest()[:16]
+
+
 def build_and_audit(theorems):
     """returns (ok, info). Cached on the hash of the Lean sources + theorem list."""
     t0 = time.time()
@@ -187,6 +197,17 @@ def main():
     mod = importlib.import_module("harness.props." + pid.lower())
 
     ok, audit = build_and_audit(mod.THEOREMS)
+    if ok and tier == "thorough":
+        # independent re-check of the compiled library by leanchecker, once per state of the Lean sources
+        lc = os.path.join(LEAN, ".lake", "leanchecker_%s.ok" % _sources_digest())
+        if not os.path.exists(lc):
+            r = sh("timeout 1500 lake env leanchecker Pfl 2>&1", cwd=LEAN)
+            if r.returncode == 0:
+                open(lc, "w").write("ok\n")
+            else:
+                ok = False
+                audit["log"] = "leanchecker failed: " + r.stdout[-1500:]
+        audit["leanchecker"] = os.path.exists(lc)
     if not ok:
         print("INFRA: Lean build/audit failed: %s" % json.dumps({k: audit.get(k) for k in
               ("error", "forbidden_tokens", "not_discharged", "audit_log", "log")})[:3000])
@@ -304,7 +325,7 @@ def main():
         "property_id": pid, "tier": tier, "seed": seed, "level": getattr(mod, "LEVEL", "proof"),
         "coverage": {
             "obligations": max(audit["obligations"], 0), "discharged": audit["discharged"],
-            "checker_cmd": "cd lean && lake build Pfl && lake env lean Audit.lean  (#print axioms of every registered theorem)",
+            "checker_cmd": "cd lean && lake build Pfl && lake env lean Audit.lean  (#print axioms of every registered theorem)" + ("; lake env leanchecker Pfl" if audit.get("leanchecker") else ""),
             "trusted_base": ["Lean 4.33.0 kernel", "axioms: propext, Classical.choice, Quot.sound only",
                              "Spec definitions in lean/Pfl/Spec", "correspondence harness (harness/*.py, lean/PflDrv)",
                              "CPython sets/dicts/str modelled as lists/strings"],
